@@ -79,6 +79,10 @@ CLAIMS = {
             "Proof: C12_registry_invariant, C12_registry (a field-discriminated decode returns exactly the eligible class defined so far that carries the tag, SuitableVariantNotFound iff none, MissingDiscriminator iff the key is absent), C12_history_independent, C12_eligible_exact, C12_nofield, C12_code_variants (over the kernel re-translated each run), under uniqueness of the decoded tag and no self-dispatching carrier; known finding nofield-inherited-unpacker refuted in Coq. Closed under the global context.",
             "Trusted: Coq kernel + vm_compute (coqchk in thorough); the K12 translator; model of __subclasses__ order, dict semantics and dataclass acceptance (compared with /repo on every run); harness rendering of histories.",
             "4 C12"),
+    "C20": ("Coq proof (state-passing model of schema building + generic invariant over build sequences; totality by rank, divergence for every fuel on cyclic tables) + kernel K9 (context defaults, ref prefix, reference/registration key) translated from source each run; vm_compute correspondence with build_json_schema; metaschema / refs / round-trip oracle",
+            "Proof (partial): C20_refs_closed (every $ref of every output and definition names a key of the final definitions, over any sequence of builds on one context), C20_wf (metaschema-relevant well-formedness), C20_total on ranked (acyclic) class tables, C20_cyclic_diverges (known finding D10), C20_K9_prefix / C20_K9_ref_names_key over the kernel re-translated each run. The JSONSchema.from_dict/to_dict round trip and everything outside the model grammar are checked on the real code by the oracle only; 10 known findings. Closed under the global context.",
+            "Trusted: Coq kernel + vm_compute; the K9 plugin with its structure-checked slices; the model grammar; the jsonschema package (check_schema); the generator's known-finding predicates.",
+            "4 C20"),
 }
 
 ALL = [f"C{i:02d}" for i in range(1, 21)]
